@@ -100,10 +100,7 @@ func New(maxConcurrent int, chQqueueSize int, v ...interface{}) *TaskPool {
 	}
 	if len(v) > 0 {
 		if caller, ok := v[0].(func(f func())); ok {
-			tp.caller = func(f func()) {
-				defer atomic.AddInt64(&tp.concurrent, -1)
-				caller(f)
-			}
+			tp.caller = caller
 		}
 	}
 	go func() {
